@@ -492,6 +492,19 @@ func (st *ex4State) handler(sv *ex4Server) server4.Handler {
 				mods = append(mods, dhcpv4.WithOption(dhcpv4.OptServerIdentifier(other)))
 				s.Fault("reply-foreign-server-id")
 			}
+			// arbitrary lease options: whatever the server sends belongs to "that very offer / ACK"
+			if t.Coin(1, 2) {
+				mods = append(mods, dhcpv4.WithOption(dhcpv4.OptSubnetMask(net.IPv4Mask(255, 255, byte(240+t.Choose(16)), 0))),
+					dhcpv4.WithOption(dhcpv4.OptRouter(net.IPv4(192, 168, byte(sv.id), 1))))
+			}
+			if t.Coin(1, 3) {
+				mods = append(mods, dhcpv4.WithOption(dhcpv4.OptDNS(net.IPv4(9, 9, 9, byte(t.Choose(9))), net.IPv4(1, 1, 1, 1))),
+					dhcpv4.WithOption(dhcpv4.OptDomainName(fmt.Sprintf("lab%d.example", t.Choose(4)))))
+			}
+			if t.Coin(1, 4) {
+				mods = append(mods, dhcpv4.WithGeneric(dhcpv4.GenericOptionCode(43), []byte{1, 2, byte(sv.id), byte(t.Choose(250))}),
+					dhcpv4.WithGeneric(dhcpv4.GenericOptionCode(224), bytes.Repeat([]byte{byte(0x30 + t.Choose(9))}, 1+t.Choose(300))))
+			}
 			// siaddr ("next server") and ciaddr are the server's to fill in: neither is the server identifier
 			switch t.Weighted(4, 2, 2) {
 			case 1:
